@@ -36,6 +36,15 @@ def insSorted (x : Sym) : List Sym → List Sym
 def showSym (s : Sym) : String :=
   (match s.ns with | [a] => toHex a | _ => "?") ++ "." ++ toHex s.name
 
+/-- comma list of decimals; `-` = empty set -/
+def nats? (s : String) : Option (List Nat) :=
+  if s = "-" then some [] else
+    (s.splitOn ",").foldr (fun x a => match x.toNat?, a with
+      | some y, some l => some (y :: l)
+      | _, _ => none) (some [])
+
+def bit (b : Bool) : String := if b then "1" else "0"
+
 def step (s : Unit) (t : List String) : Unit × String :=
   (s, match t with
   | ["reg", fs] =>
@@ -45,6 +54,11 @@ def step (s : Unit) (t : List String) : Unit × String :=
       let sorted := tbl.foldr insSorted []
       s!"n={sorted.length} " ++ showList (sorted.map showSym)
     | none => "bad-op"
+  | ["excl", p, n, p', n'] =>
+    match nats? p, nats? n, nats? p', nats? n' with
+    | some p, some n, some p', some n' =>
+      "ab=" ++ bit (exclusiveSets p n p' n') ++ " ba=" ++ bit (exclusiveSets p' n' p n)
+    | _, _, _, _ => "bad-op"
   | "perm" :: _ => "?"
   | "twice" :: _ => "?"
   | ["reset"] => "ok"
